@@ -28,7 +28,7 @@ RULE = ("get_multiplier_sequence: every subset of {1..10} of size <=4 (quick) / 
 TRUSTED = ["h5py Group.copy makes a faithful copy of a base level (observed: bins incl. extra columns, pixels, indexes, attributes are compared with the source)",
            "coarsen_cooler = model of property C08 (same correspondence run style), multiprocess.Pool.map order preserving"]
 ASSUMPTIONS = ["resolutions and base bin sizes are positive integers", "all base coolers share one chromosome table"]
-RESIDUE = ["as C08: process scheduling / HDF5 lock not modelled", "the theorems hold for every permutation-invariant aggregation that composes over non-empty blocks; the correspondence drives sum, max and min on integer columns through the model (zoomify_cooler_g); the mean does not compose along a chain (ex_C09_mean_chain_refuted) and is outside the claim", "the CLI tokenizer (strip/lower/split) is modelled by token classes; int() parsing by the harness",
+RESIDUE = ["as C08: process scheduling / HDF5 lock not modelled", "a base without the `format` header attribute (e.g. tests/data/hg19.GM12878-MboI.matrix.2000kb.cool) is not a cooler for fileops.is_cooler and is outside the domain: its copied base level is not listed by list_coolers", "the theorems hold for every permutation-invariant aggregation that composes over non-empty blocks; the correspondence drives sum, max and min on integer columns through the model (zoomify_cooler_g); the mean does not compose along a chain (ex_C09_mean_chain_refuted) and is outside the claim", "the CLI tokenizer (strip/lower/split) is modelled by token classes; int() parsing by the harness",
            "--balance and --legacy are outside the claim"]
 ALLOW_AXIOMS = ()
 
